@@ -5,7 +5,7 @@
    characters, the size field; both layouts.  [run (default_str c ck) ops] executes a history from
    the empty string.  [cap_ok c]: 0 <= c < 2^62.  [op_wf]: the numeric arguments are size_t values. *)
 From Tetl Require Import Lib.Base C08.Model C08.Spec C08.Core C04.Model C04.Spec C04.Inv C04.InvOps C04.Refuted
-  C04.CstrFacts C04.RefineBase C04.RefineOps1 C04.Refine C04.Total C04.PreDoc C04.ReplaceSpec.
+  C04.CstrFacts C04.RefineBase C04.RefineOps1 C04.Refine C04.Total C04.PreDoc C04.ReplaceSpec C04.ModelAlias C04.AliasProofs.
 Local Open Scope Z_scope.
 
 (** * Refinement: the model is std::basic_string wherever the std result fits into the capacity.
@@ -50,6 +50,19 @@ Theorem C04_self_pointer : forall s off n, inv s -> 0 <= off -> 0 <= n -> off + 
   s_prefix (self_src s off) n = Some (take n (drop off (contents s))).
 Proof. exact self_src_prefix. Qed.
 Print Assumptions C04_self_pointer.
+
+(* what the code DOES with a source inside the string itself (ModelAlias.v: append(ptr, count) copies character by
+   character from the array it is writing to; insert_impl = that append + rotate; append(first, last) reads *first before
+   every push_back) is, for every source range inside the contents, the ordinary operation on a snapshot of the array *)
+Theorem C04_self_loops_are_snapshot :
+  (forall s off count, inv s -> 0 <= off -> 0 <= count -> off + count <= get_size s ->
+     append_self_m s off count = append_ptr_m s (self_src s off) count) /\
+  (forall s pos off count, inv s -> 0 <= off -> 0 <= count -> off + count <= get_size s ->
+     insert_self_m s pos off count = insert_impl_m s pos (self_src s off) count) /\
+  (forall n s i, inv s -> 0 <= i -> i + Z.of_nat n <= get_size s ->
+     push_back_self_loop s i n = push_back_loop_m s (firstn n (skipn (Z.to_nat i) (contents s)))).
+Proof. exact (conj append_self_snapshot (conj insert_self_snapshot push_back_self_loop_snapshot)). Qed.
+Print Assumptions C04_self_loops_are_snapshot.
 
 (* append(first, last) with forward / input iterators (no up-front check) and with random access iterators (checked up
    front, fix commit 2a00b17) has the same outcome from every state *)
@@ -163,8 +176,9 @@ Theorem C04_replace_is_inplace :
 Proof. exact (conj replace_is_inplace (conj replace_ptr_is_inplace (conj replace_cstr_is_inplace replace5_is_inplace))). Qed.
 Print Assumptions C04_replace_is_inplace.
 
-(* the iterator-based overloads on a valid range [first, last) of the string (0 <= first <= last <= size(); anything else
-   is undefined behaviour, the model says UB): the in-place replace of last - first characters at first *)
+(* the iterator-based overloads (iterators as ptrdiff_t offsets from begin()): on a range [first, last) of the string
+   (0 <= first <= last <= size()) the in-place replace of last - first characters at first; for EVERY other pair the call
+   stops at the precondition (fix commit 377d1df) *)
 Theorem C04_replace_iterators_inplace :
   (forall s first last src, inv s -> 0 <= first <= last -> last <= get_size s ->
      exists s', replace_it_m s first last src = Ok s' /\ (inv s' /\ cap s' = cap s /\ ckind s' = ckind s) /\
@@ -174,6 +188,14 @@ Theorem C04_replace_iterators_inplace :
        Some (contents s') = s_replace_inplace (contents s) first (last - first) (rep count2 ch)).
 Proof. exact (conj replace_it_is_inplace replace_it_fill_is_inplace). Qed.
 Print Assumptions C04_replace_iterators_inplace.
+
+Theorem C04_replace_iterators_contract : forall s first last, inv s ->
+  -9223372036854775808 <= first < 9223372036854775808 -> -9223372036854775808 <= last < 9223372036854775808 ->
+  ~ (0 <= first <= last /\ last <= get_size s) ->
+  (forall src, replace_it_m s first last src = Contract) /\
+  (forall count2 ch, replace_it_fill_m s first last count2 ch = Contract).
+Proof. exact replace_it_contract. Qed.
+Print Assumptions C04_replace_iterators_contract.
 
 (* the in-place replace IS std::basic_string::replace exactly when the replacement is as long as the replaced range
    min(count, size() - pos) — the complement is the defect region of KF-C04-replace-inplace *)
